@@ -399,6 +399,12 @@ func runC15(c *Ctx) {
 		mkbin(z, vu(2000), vu(1), vu(1), vu(0), vu(0), vu(0), []byte{0x80}, []byte{0x05}),  // fraction 5 >= 1
 		mkbin(z, vu(0), vu(1), vu(1)), mkbin(z, vu(0)), mkbin(z, vu(10000)),
 	}
+	// the malformed-timestamp atoms of the C07 catalogue (fields too large, fractions outside [0,1), ...)
+	for _, at := range binaryAtoms() {
+		if strings.HasPrefix(at.name, "timestamp-") {
+			negbin = append(negbin, hex.EncodeToString(append(append([]byte{}, refbin.IVM...), at.data...)))
+		}
+	}
 	for _, h := range negbin {
 		if data, _ := hex.DecodeString(h); true {
 			if _, err := refbin.Decode(data, nil); err == nil {
